@@ -14,8 +14,12 @@ CONFIGS = [
 ]
 
 
+# a late step racing with the interrupt of an enclosing until(flag) that is set in the very time step the body ends
+LATE = ('late', dict(B, NRoots=2, MaxActs=2, RootOps=4, Horizon=3, MaxScopes=1, TickSel='basic',
+                     Menu={'sleep', 'tick', 'until_f', 'fset', 'leave'}))
+CONFIGS.append(LATE)
 THOROUGH = CONFIGS
-QUICK = [
+QUICK = [LATE,
     ('mixed', dict(B, NRoots=2, MaxActs=2, RootOps=3, Horizon=4, TickSel='mixed', Menu={'instant', 'sleep', 'tick'})),
     ('until', dict(B, NRoots=2, MaxActs=2, RootOps=3, Horizon=3, MaxScopes=2, TickSel='basic',
                    Menu={'instant', 'sleep', 'tick', 'until_d', 'leave'})),
